@@ -151,6 +151,8 @@ def strict(v, t, path="", exact=False):
         ft = DATACLASS_FIELD_T.get(t.extra, {})
         for name, x in v.items():
             if name in ft:
+                if x is None:
+                    continue  # the property speaks about non-null values: a null field is "not given" (sessions log: '? x')
                 r = strict(x, ft[name], f"{path}.{name}", exact)
                 if r:
                     return r
